@@ -17,7 +17,8 @@ package main
 //     is randomised per process) and must be identical;
 //   * the assumption behind the model's lower-casing is checked for all 0x110000 code points.
 //
-// Request verbs (replayable): GETINFO <hex name>, TNAME <arch> <hex name>, TNUM <arch> <nr>.
+// Request verbs (replayable): GETINFO <hex name>, TNAME <Info var> <hex name>, TNUM <Info var> <nr>,
+// ROW <Info var>.
 
 import (
 	"encoding/hex"
@@ -44,6 +45,7 @@ func init() {
 	replayFuncs["GETINFO"] = replayTables
 	replayFuncs["TNAME"] = replayTables
 	replayFuncs["TNUM"] = replayTables
+	replayFuncs["ROW"] = replayTables
 }
 
 type tFacts struct {
@@ -263,6 +265,19 @@ func auditNameOf(rowName string) string {
 
 func hexs(s string) string { return hex.EncodeToString([]byte(s)) }
 
+// tmismatch registers a mismatch unless one with the same (non-empty) key is already recorded:
+// one defect is reported once, by the first observation that finds it.
+func tmismatch(r *runner, m Mismatch) bool {
+	if m.Key != "" {
+		for _, o := range r.sum.Mismatches {
+			if o.Key == m.Key {
+				return false
+			}
+		}
+	}
+	return r.mismatch(m)
+}
+
 func tablesStream(r *runner, rng *rand.Rand) error {
 	if *profile == "child" {
 		// fresh-process mode: print this process' name→number maps
@@ -306,7 +321,7 @@ func tablesStream(r *runner, rng *rand.Rand) error {
 		default:
 			if l < 0x80 {
 				bad++
-				r.mismatch(Mismatch{Case: "tolower", Request: fmt.Sprintf("GETINFO %s", hexs(string(c))), Go: fmt.Sprintf("unicode.ToLower(U+%04X)=U+%04X", c, l),
+				tmismatch(r, Mismatch{Case: "tolower", Request: fmt.Sprintf("GETINFO %s", hexs(string(c))), Go: fmt.Sprintf("unicode.ToLower(U+%04X)=U+%04X", c, l),
 					Model: "non-ASCII runes other than U+0130, U+212A stay non-ASCII", Note: "assumption of Arch.lower broken for this Go toolchain"})
 			}
 		}
@@ -316,7 +331,7 @@ func tablesStream(r *runner, rng *rand.Rand) error {
 	r.sum.Extra["tolower_codepoints"] = int(unicode.MaxRune) + 1
 	r.sum.Extra["tolower_violations"] = bad
 	if bad > 0 && len(r.sum.Mismatches) == 0 {
-		r.mismatch(Mismatch{Case: "tolower", Request: "TOLOWER", Note: "ASCII/special-rune lower-casing differs from the model"})
+		tmismatch(r, Mismatch{Case: "tolower", Request: "TOLOWER", Note: "ASCII/special-rune lower-casing differs from the model"})
 	}
 
 	// 1. GetInfo for every alias key in several spellings, neighbours of keys, unknown names
@@ -336,14 +351,14 @@ func tablesStream(r *runner, rng *rand.Rand) error {
 		if !ok {
 			m := Mismatch{Case: id, Request: req, Go: got, Model: want, Key: "getinfo:" + lowerModel(name),
 				FailingInput: fmt.Sprintf("arch.GetInfo(%q) = %s; the property requires %s", name, got, want)}
-			return r.mismatch(m)
+			return tmismatch(r, m)
 		}
 		return false
 	}
 	for _, a := range f.Arches {
 		// tie of the regenerated alias map: the compiled map sends the key to the same variable
 		if info, err, _ := safeGetInfo(a.Key); err == nil && info != archVars[a.Var] {
-			r.mismatch(Mismatch{Case: "alias-map", Request: "GETINFO " + hexs(a.Key), Go: fmt.Sprintf("Info named %q", info.Name), Model: "variable " + a.Var,
+			tmismatch(r, Mismatch{Case: "alias-map", Request: "GETINFO " + hexs(a.Key), Go: fmt.Sprintf("Info named %q", info.Name), Model: "variable " + a.Var,
 				Note: "compiled alias map differs from the regenerated one"})
 		}
 		for i, v := range caseVariants(rng, a.Key) {
@@ -400,16 +415,16 @@ func tablesStream(r *runner, rng *rand.Rand) error {
 		r.count(req, true)
 		r.tag("row")
 		if info == nil {
-			r.mismatch(Mismatch{Case: "row", Request: req, Note: "Info variable " + row.Var + " is not known to the harness"})
+			tmismatch(r, Mismatch{Case: "row", Request: req, Note: "Info variable " + row.Var + " is not known to the harness"})
 			continue
 		}
 		if info.Name != row.Name || uint64(info.ID) != row.ID || uint64(info.SeccompMask) != row.Mask {
-			r.mismatch(Mismatch{Case: "row", Request: req, Go: fmt.Sprintf("name=%s id=0x%x mask=0x%x", info.Name, uint32(info.ID), info.SeccompMask),
+			tmismatch(r, Mismatch{Case: "row", Request: req, Go: fmt.Sprintf("name=%s id=0x%x mask=0x%x", info.Name, uint32(info.ID), info.SeccompMask),
 				Model: fmt.Sprintf("name=%s id=0x%x mask=0x%x", row.Name, row.ID, row.Mask), Note: "compiled Info differs from the regenerated row"})
 		}
 		if len(audit) > 0 {
 			if k, ok := audit[auditNameOf(info.Name)]; !ok || k != uint64(info.ID) {
-				r.mismatch(Mismatch{Case: "audit", Request: req, Go: fmt.Sprintf("arch.%s.ID=0x%x", row.Var, uint32(info.ID)), Model: fmt.Sprintf("%s=0x%x (linux/audit.h)", auditNameOf(info.Name), k),
+				tmismatch(r, Mismatch{Case: "audit", Request: req, Go: fmt.Sprintf("arch.%s.ID=0x%x", row.Var, uint32(info.ID)), Model: fmt.Sprintf("%s=0x%x (linux/audit.h)", auditNameOf(info.Name), k),
 					Key:          "audit:" + row.Var,
 					FailingInput: fmt.Sprintf("arch.%s.ID = 0x%x but the kernel's %s = 0x%x (linux/audit.h evaluated by gcc)", row.Var, uint32(info.ID), auditNameOf(info.Name), k)})
 			}
@@ -419,12 +434,12 @@ func tablesStream(r *runner, rng *rand.Rand) error {
 			wantMask = 0x40000000
 		}
 		if uint64(info.SeccompMask) != wantMask {
-			r.mismatch(Mismatch{Case: "mask", Request: req, Go: fmt.Sprintf("mask=0x%x", info.SeccompMask), Model: fmt.Sprintf("mask=0x%x", wantMask), Key: "mask:" + row.Var,
+			tmismatch(r, Mismatch{Case: "mask", Request: req, Go: fmt.Sprintf("mask=0x%x", info.SeccompMask), Model: fmt.Sprintf("mask=0x%x", wantMask), Key: "mask:" + row.Var,
 				FailingInput: fmt.Sprintf("arch.%s.SeccompMask = 0x%x, expected 0x%x", row.Var, info.SeccompMask, wantMask)})
 		}
 		tab := f.Tables[row.Table]
 		if (row.Table == "") != (len(info.SyscallNumbers) == 0) || (row.Names == "") != (len(info.SyscallNames) == 0) {
-			r.mismatch(Mismatch{Case: "row", Request: req, Go: fmt.Sprintf("numbers=%d names=%d", len(info.SyscallNumbers), len(info.SyscallNames)),
+			tmismatch(r, Mismatch{Case: "row", Request: req, Go: fmt.Sprintf("numbers=%d names=%d", len(info.SyscallNumbers), len(info.SyscallNames)),
 				Model: fmt.Sprintf("table=%q names=%q", row.Table, row.Names), Note: "presence of the maps differs from the regenerated row"})
 		}
 		if len(tab) == 0 {
@@ -446,23 +461,23 @@ func tablesStream(r *runner, rng *rand.Rand) error {
 			nrs := byName[name]
 			sort.Ints(nrs)
 			if i < 3 {
-				r.mismatch(Mismatch{Case: "ambiguous", Request: fmt.Sprintf("TNAME %s %s", row.Var, hexs(name)), Go: fmt.Sprintf("SyscallNumbers lists %q under %v; SyscallNames[%q]=%d in this process", name, nrs, name, info.SyscallNames[name]),
+				tmismatch(r, Mismatch{Case: "ambiguous", Request: fmt.Sprintf("TNAME %s %s", row.Var, hexs(name)), Go: fmt.Sprintf("SyscallNumbers lists %q under %v; SyscallNames[%q]=%d in this process", name, nrs, name, info.SyscallNames[name]),
 					Model: "one number per name", Key: fmt.Sprintf("ambiguous:%s:%s", row.Name, name),
 					FailingInput: fmt.Sprintf("arch=%s name=%s numbers=%v (%d ambiguous names in this table: %s)", row.Name, name, nrs, len(amb), strings.Join(amb, ","))})
 			}
 		}
 		if len(info.SyscallNumbers) != len(tab) {
-			r.mismatch(Mismatch{Case: "size", Request: req, Go: fmt.Sprintf("len(SyscallNumbers)=%d", len(info.SyscallNumbers)), Model: fmt.Sprintf("%d entries in the literal", len(tab)), Note: "compiled table and regenerated table differ in size"})
+			tmismatch(r, Mismatch{Case: "size", Request: req, Go: fmt.Sprintf("len(SyscallNumbers)=%d", len(info.SyscallNumbers)), Model: fmt.Sprintf("%d entries in the literal", len(tab)), Note: "compiled table and regenerated table differ in size"})
 		}
 		if len(info.SyscallNames) != len(byName) {
-			r.mismatch(Mismatch{Case: "size", Request: req, Go: fmt.Sprintf("len(SyscallNames)=%d", len(info.SyscallNames)), Model: fmt.Sprintf("%d distinct names", len(byName)), Note: "inverted map has a different number of names"})
+			tmismatch(r, Mismatch{Case: "size", Request: req, Go: fmt.Sprintf("len(SyscallNames)=%d", len(info.SyscallNames)), Model: fmt.Sprintf("%d distinct names", len(byName)), Note: "inverted map has a different number of names"})
 		}
 		for _, e := range tab {
 			entries++
 			reqN := fmt.Sprintf("TNUM %s %d", row.Var, e.Num)
 			r.count(reqN, true)
 			if got, ok := info.SyscallNumbers[int(e.Num)]; !ok || got != e.Name {
-				if r.mismatch(Mismatch{Case: "entry", Request: reqN, Go: fmt.Sprintf("%q,%v", got, ok), Model: e.Name, Note: "compiled SyscallNumbers differs from the regenerated table"}) {
+				if tmismatch(r, Mismatch{Case: "entry", Request: reqN, Go: fmt.Sprintf("%q,%v", got, ok), Model: e.Name, Note: "compiled SyscallNumbers differs from the regenerated table"}) {
 					return nil
 				}
 			}
@@ -472,7 +487,7 @@ func tablesStream(r *runner, rng *rand.Rand) error {
 				if len(byName[e.Name]) > 1 {
 					continue // reported above as ambiguous
 				}
-				if r.mismatch(Mismatch{Case: "entry", Request: reqS, Go: fmt.Sprintf("%d,%v", got, ok), Model: fmt.Sprint(e.Num), Key: fmt.Sprintf("inverse:%s:%s", row.Name, e.Name),
+				if tmismatch(r, Mismatch{Case: "entry", Request: reqS, Go: fmt.Sprintf("%d,%v", got, ok), Model: fmt.Sprint(e.Num), Key: fmt.Sprintf("inverse:%s:%s", row.Name, e.Name),
 					FailingInput: fmt.Sprintf("arch=%s: SyscallNumbers[%d]=%q but SyscallNames[%q]=%d", row.Name, e.Num, e.Name, e.Name, got)}) {
 					return nil
 				}
@@ -492,10 +507,10 @@ func tablesStream(r *runner, rng *rand.Rand) error {
 				}
 				oracleCmp++
 				r.count(fmt.Sprintf("ORACLE %s %s %s", s.ID, row.Var, e.Name), true)
-				if uint64(got) != e.Num {
+				if uint64(got) != e.Num && len(byName[e.Name]) == 1 {
 					nbad++
 					if nbad <= 2 {
-						if r.mismatch(Mismatch{Case: "oracle", Request: fmt.Sprintf("TNAME %s %s", row.Var, hexs(e.Name)), Go: fmt.Sprint(got), Model: fmt.Sprintf("%d (%s)", e.Num, s.ID),
+						if tmismatch(r, Mismatch{Case: "oracle", Request: fmt.Sprintf("TNAME %s %s", row.Var, hexs(e.Name)), Go: fmt.Sprint(got), Model: fmt.Sprintf("%d (%s)", e.Num, s.ID),
 							Key:          fmt.Sprintf("oracle:%s:%s", row.Name, e.Name),
 							FailingInput: fmt.Sprintf("arch=%s name=%s: the package says %d, %s says %d", row.Name, e.Name, got, s.ID, e.Num)}) {
 							return nil
@@ -539,13 +554,13 @@ func tablesStream(r *runner, rng *rand.Rand) error {
 			cerr = fmt.Errorf("timeout")
 		}
 		if cerr != nil {
-			r.mismatch(Mismatch{Case: "fresh-process", Request: fmt.Sprintf("RUN %d", i), Note: "child failed: " + cerr.Error()})
+			tmismatch(r, Mismatch{Case: "fresh-process", Request: fmt.Sprintf("RUN %d", i), Note: "child failed: " + cerr.Error()})
 			break
 		}
 		var theirs map[string]map[string]int
 		line := strings.TrimSpace(string(out))
 		if err := json.Unmarshal([]byte(line), &theirs); err != nil {
-			r.mismatch(Mismatch{Case: "fresh-process", Request: fmt.Sprintf("RUN %d", i), Note: "child output unreadable: " + err.Error()})
+			tmismatch(r, Mismatch{Case: "fresh-process", Request: fmt.Sprintf("RUN %d", i), Note: "child output unreadable: " + err.Error()})
 			break
 		}
 		runs++
@@ -571,7 +586,7 @@ func tablesStream(r *runner, rng *rand.Rand) error {
 						if row != nil {
 							an = row.Name
 						}
-						r.mismatch(Mismatch{Case: "fresh-process", Request: fmt.Sprintf("TNAME %s %s", v, hexs(name)), Go: fmt.Sprintf("run A: %d, run B: %d", mine[v][name], t), Model: "same number in every run",
+						tmismatch(r, Mismatch{Case: "fresh-process", Request: fmt.Sprintf("TNAME %s %s", v, hexs(name)), Go: fmt.Sprintf("run A: %d, run B: %d", mine[v][name], t), Model: "same number in every run",
 							Key:          fmt.Sprintf("ambiguous:%s:%s", an, name),
 							FailingInput: fmt.Sprintf("arch=%s name=%s resolves to %d in one process and to %d in another (map inversion order)", an, name, mine[v][name], t)})
 					}
@@ -593,10 +608,13 @@ func tablesStream(r *runner, rng *rand.Rand) error {
 
 // replayTables re-executes one request line on the compiled package and prints what it finds.
 func replayTables(r *runner, id, line string) {
+	if len(r.sum.Mismatches) >= *maxMismatch {
+		return // enough failing inputs for one run
+	}
 	fl := strings.Fields(line)
 	f, err := loadTFacts()
 	if err != nil {
-		r.mismatch(Mismatch{Case: id, Request: line, Note: err.Error()})
+		tmismatch(r, Mismatch{Case: id, Request: line, Note: err.Error()})
 		return
 	}
 	r.count(line, true)
@@ -606,7 +624,7 @@ func replayTables(r *runner, id, line string) {
 		if len(fl) > 1 {
 			b, err := hex.DecodeString(fl[1])
 			if err != nil {
-				r.mismatch(Mismatch{Case: id, Request: line, Note: "bad hex"})
+				tmismatch(r, Mismatch{Case: id, Request: line, Note: "bad hex"})
 				return
 			}
 			name = string(b)
@@ -614,31 +632,52 @@ func replayTables(r *runner, id, line string) {
 		got, want, ok := checkGetInfo(f, name)
 		r.sample(fmt.Sprintf("GetInfo(%q) => %s (expected %s)", name, got, want))
 		if !ok {
-			r.mismatch(Mismatch{Case: id, Request: line, Go: got, Model: want, Key: "getinfo:" + lowerModel(name),
+			tmismatch(r, Mismatch{Case: id, Request: line, Go: got, Model: want, Key: "getinfo:" + lowerModel(name),
 				FailingInput: fmt.Sprintf("arch.GetInfo(%q) = %s; the property requires %s", name, got, want)})
+		}
+	case "ROW":
+		if len(fl) < 2 || archVars[fl[1]] == nil {
+			tmismatch(r, Mismatch{Case: id, Request: line, Note: "unknown Info variable"})
+			return
+		}
+		info := archVars[fl[1]]
+		wantMask := 0
+		if info.Name == "x32" {
+			wantMask = 0x40000000
+		}
+		k, have := uint64(0), false
+		for _, a := range f.Oracle.AuditArch {
+			if a.Name == auditNameOf(info.Name) {
+				k, have = a.Val, true
+			}
+		}
+		desc := fmt.Sprintf("arch.%s: Name=%s ID=0x%x SeccompMask=0x%x; kernel %s=0x%x (known=%v); expected mask 0x%x", fl[1], info.Name, uint32(info.ID), info.SeccompMask, auditNameOf(info.Name), k, have, wantMask)
+		r.sample(desc)
+		if (have && k != uint64(info.ID)) || info.SeccompMask != wantMask {
+			tmismatch(r, Mismatch{Case: id, Request: line, Go: desc, Model: "ID = kernel constant, mask only on x32", Key: "audit:" + fl[1], FailingInput: desc})
 		}
 	case "TNAME", "TNUM":
 		if len(fl) < 3 {
-			r.mismatch(Mismatch{Case: id, Request: line, Note: "malformed request"})
+			tmismatch(r, Mismatch{Case: id, Request: line, Note: "malformed request"})
 			return
 		}
 		info := archVars[fl[1]]
 		if info == nil {
-			r.mismatch(Mismatch{Case: id, Request: line, Note: "unknown Info variable"})
+			tmismatch(r, Mismatch{Case: id, Request: line, Note: "unknown Info variable"})
 			return
 		}
 		var name string
 		if fl[0] == "TNAME" {
 			b, err := hex.DecodeString(fl[2])
 			if err != nil || !utf8.Valid(b) {
-				r.mismatch(Mismatch{Case: id, Request: line, Note: "bad hex"})
+				tmismatch(r, Mismatch{Case: id, Request: line, Note: "bad hex"})
 				return
 			}
 			name = string(b)
 		} else {
 			nr, err := strconv.Atoi(fl[2])
 			if err != nil {
-				r.mismatch(Mismatch{Case: id, Request: line, Note: "bad number"})
+				tmismatch(r, Mismatch{Case: id, Request: line, Note: "bad number"})
 				return
 			}
 			name = info.SyscallNumbers[nr]
@@ -677,7 +716,7 @@ func replayTables(r *runner, id, line string) {
 		desc := fmt.Sprintf("arch=%s name=%q SyscallNames=%d,%v numbers-with-this-name=%v oracles=[%s]", info.Name, name, got, ok, nrs, strings.Join(orc, " "))
 		r.sample(desc)
 		if bad {
-			r.mismatch(Mismatch{Case: id, Request: line, Go: desc, Model: "exactly one number, equal to every oracle source that lists the name",
+			tmismatch(r, Mismatch{Case: id, Request: line, Go: desc, Model: "exactly one number, equal to every oracle source that lists the name",
 				Key: fmt.Sprintf("ambiguous:%s:%s", info.Name, name), FailingInput: desc})
 		}
 	}
